@@ -1,6 +1,6 @@
 (* Properties_C03.v — C03: each epoch exactly once, in DataLoader order.
    Model: SdlModel.v (the multi-process iterator under an explicit arrival SCHEDULE); proofs: SdlMapProofs.v. *)
-From PD Require Import Base SdlModel SdlObs SdlMapProofs.
+From PD Require Import Base SdlModel SdlObs SdlMapProofs SdlIterWorker.
 Open Scope list_scope. Open Scope nat_scope.
 
 (* map-style datasets, PROVED for every configuration (any num_workers > 0, prefetch_factor > 0, any batch sampler output,
@@ -25,6 +25,14 @@ Print Assumptions C03_map_rest_exact.
 Definition C03_iter_statement : Prop :=
   forall c, c_kind c = KIter -> 0 < c_W c -> 0 < c_P c -> length (c_shards c) = c_W c -> c_bad c = [] ->
   forall sched, outcomes c (S (length (reference c))) (sdl_fresh c) sched = map OBatch (reference c) ++ [OStop].
+
+(* PROVED building block of the iterable statement — the worker side, for every batch size (incl. batch_size=None), drop_last,
+   rewind habit and every number of tasks: the answers of a fresh worker to its successive tasks are exactly the batches of
+   its shard (the per-worker list that `reference` interleaves), in order, then end-of-shard notices and nothing else *)
+Theorem C03_iter_worker_answers_exact : forall c, c_kind c = KIter -> forall w ts,
+  fst (fetches c w wk_fresh ts) = answers (length ts) (worker_batches c w).
+Proof. exact fresh_worker_answers. Qed.
+Print Assumptions C03_iter_worker_answers_exact.
 
 Example C03_reference_example :
   reference {| c_kind := KIter; c_W := 3; c_P := 2; c_I := 1; c_bs := 2; c_drop := false;
